@@ -21,6 +21,16 @@ func ParseFragment(s string) []*html.Node {
 	return nodes
 }
 
+// ParseFragmentNoScript parses s as a fragment in <body> context with scripting disabled
+// (the body of <noscript> is then parsed as markup, as by clients without JavaScript).
+func ParseFragmentNoScript(s string) []*html.Node {
+	nodes, err := html.ParseFragmentWithOptions(strings.NewReader(s), body, html.ParseOptionEnableScripting(false))
+	if err != nil {
+		return nil
+	}
+	return nodes
+}
+
 // ParseDocument parses s as a full document.
 func ParseDocument(s string) []*html.Node {
 	doc, err := html.Parse(strings.NewReader(s))
@@ -55,8 +65,8 @@ type El struct {
 
 // Options control the projection.
 type Options struct {
-	Values     bool // include attribute values and text
-	RawText    bool // keep text of raw-text elements verbatim (otherwise normalised like other text)
+	Values      bool // include attribute values and text
+	RawText     bool // keep text of raw-text elements verbatim (otherwise normalised like other text)
 	KeepDoctype bool
 }
 
